@@ -598,12 +598,28 @@ def chain_pwa_case(ctx, rng, lines, pending):
     want_mask = [not c for c in conts]
     tlarr = np.array(tl)
 
-    def make():
-        return mt.TransformChain([mt.Translation(np.array(off)),
-                                  mt.PiecewiseAffine(TriMesh(pts.copy(), trilist=tlarr.copy()), PointCloud(tpts.copy()))])
+    # the same map (translation, then the piecewise-affine warp) held in differently nested compositions: the
+    # piecewise-affine member may sit inside a chain that is itself a member (seeded C09-4), or be reached through
+    # compose_before, which appends a whole chain as one member
+    nesting = rng.choice(["flat", "flat", "inner-chain", "deep", "composed", "chain-of-chain-last"])
 
+    def make():
+        tr = mt.Translation(np.array(off))
+        pwa = mt.PiecewiseAffine(TriMesh(pts.copy(), trilist=tlarr.copy()), PointCloud(tpts.copy()))
+        if nesting == "flat":
+            return mt.TransformChain([tr, pwa])
+        if nesting == "inner-chain":
+            return mt.TransformChain([tr, mt.TransformChain([pwa])])
+        if nesting == "deep":
+            return mt.TransformChain([mt.TransformChain([tr]),
+                                      mt.TransformChain([mt.TransformChain([pwa]), mt.Translation(np.zeros(2))])])
+        if nesting == "composed":
+            return tr.compose_before(pwa.compose_before(mt.UniformScale(1.0, 2)))
+        return mt.TransformChain([tr]).compose_before(mt.TransformChain([pwa, mt.Translation(np.zeros(2))]))
+
+    ctx.count("chain-with-pwa-nesting:" + nesting)
     rp = {"mesh": kind, "source": pts.tolist(), "target": tpts.tolist(), "trilist": tl, "translation": off,
-          "points": x.tolist(), "outside": want_mask}
+          "points": x.tolist(), "outside": want_mask, "nesting": nesting}
     for k in sorted({None, 1, 2, max(1, n - 1), max(1, n), n + 2}, key=lambda v: -1 if v is None else v):
         got = safe_apply(make(), x.copy(), batch_size=k)
         ctx.case(("chainpwa", kind, pts.tobytes(), str(tl), x.tobytes(), k), nontrivial=k is not None and 1 < k < n)
